@@ -83,6 +83,8 @@ def meaning(fmt):
                 ok, why = False, "too wide"
         elif written != size:
             ok, why = False, "size mismatch"
+    if total % 8:
+        ok, why = False, "length not a multiple of 8"
     cells = [None] * total
     fields = []
     pos = 0
